@@ -560,6 +560,12 @@ def _memset(ex, args, n):
     return d
 
 
+@free('epsilon')
+def _epsilon(ex, args, n):
+    """std::numeric_limits<double>::epsilon(): 2^-52"""
+    return z3.RealVal(1) / z3.RealVal(2 ** 52)
+
+
 @free('gcd')
 def _gcd(ex, args, n):
     a, b = ex.ev(args[0]), ex.ev(args[1])
